@@ -19,7 +19,7 @@ func init() {
 		Level: "other",
 		Explanation: "Decided (structural necessary conditions of 'no input can crash, hang or exhaust the process'; classes of failures are removed, their absence is not proven): (R2.1) a tokenizer error ends the token stream (the lookahead becomes EOF) or is checked at every call site, so no parse loop can spin on an unreadable byte; (R2.3) sizes read from the file are bounded before they reach make(): stream bodies are read in constant-bounded pieces, the object-stream table by the header size, the worksheet grid by a constant, and the page count is the number of leaves, not /Count; (R2.4) file-derived slice bounds and indices are guarded on both sides (object-stream offsets, /Index pairs, /W widths); (R2.5) every integer division in the predictor code has a divisor proven >= 1; (R2.6) every recursive call-graph cycle is either structurally guarded (depth counter compared with a bound and incremented along the cycle, a visited/on-path set tested and filled, an in-progress set) or is recursion over an already materialised tree listed in the checker; loops that follow file references carry a counter or visited test that dominates their back edge; the XObject depth counter is incremented and decremented exactly once on every path; (R2.7) every dereference of a format-specific reader in the Extractor happens where only that format is possible (finite dataflow over the format constants, with callee summaries). " +
 			"Not decided: absence of all panics/hangs/OOM (unproven bounds checks elsewhere, decompression bombs, regexp cost), timing.",
-		Rules: []func(*eng.Ctx){ruleTokenErr, ruleAllocBound, ruleIndexBound, ruleDivGuard, ruleRecGuard, ruleRefLoops, ruleDepthBalance, ruleFormatState, ruleParsedIndex, ruleWrapLoop, roleRule("R2.R", "core", "reader", "pages", "font"), ruleVisitedOnlyGrows, ruleObjStmIndexGuard, ruleWeakBound, ruleAllocFromFileInt, ruleSliceBoundOwnLength, ruleMarkUnmarkBalance, ruleParsedCountCapped, ruleParsedRepeatBounded, ruleCursorReadsGuarded, ruleCoordinateCountsCapped, ruleSizeCheckNoOverflow, ruleUnitDecoderReads, ruleIndexPairOrdered, ruleTailIndexGuarded},
+		Rules: []func(*eng.Ctx){ruleFixedTableIndex, ruleTokenErr, ruleAllocBound, ruleIndexBound, ruleDivGuard, ruleRecGuard, ruleRefLoops, ruleDepthBalance, ruleFormatState, ruleParsedIndex, ruleWrapLoop, roleRule("R2.R", "core", "reader", "pages", "font"), ruleVisitedOnlyGrows, ruleObjStmIndexGuard, ruleWeakBound, ruleAllocFromFileInt, ruleSliceBoundOwnLength, ruleMarkUnmarkBalance, ruleParsedCountCapped, ruleParsedRepeatBounded, ruleCursorReadsGuarded, ruleCoordinateCountsCapped, ruleSizeCheckNoOverflow, ruleUnitDecoderReads, ruleIndexPairOrdered, ruleTailIndexGuarded},
 	})
 }
 
@@ -568,6 +568,22 @@ func ruleIndexBound(c *eng.Ctx) {
 				if sum, ok := b.X.(*ssa.BinOp); ok && sum.Op == token.ADD {
 					zero = true
 				}
+				// the sum may be a small method of the width table (w.total())
+				if call, ok := b.X.(*ssa.Call); ok {
+					if hf := eng.StaticCallee(call); hf != nil && hf.Blocks != nil && eng.InModule(hf) {
+						rets := eng.Returns(hf)
+						all := len(rets) > 0
+						for _, r := range rets {
+							sum, ok := r.Results[0].(*ssa.BinOp)
+							if !ok || sum.Op != token.ADD {
+								all = false
+							}
+						}
+						if all {
+							zero = true
+						}
+					}
+				}
 			})
 		}
 		c.Check(zero, R, "core.(*XRefParser).parseXRefStream#W-nonzero", fn.Pos(), "an all-zero /W is rejected", "an entry width of zero is accepted: each entry consumes no bytes and a large /Index count loops without end")
@@ -696,7 +712,7 @@ func hasDepthGuard(fn *ssa.Function, what string, others ...*ssa.Function) bool 
 }
 
 // hasSetGuard: fn tests membership in a map named/fielded `what` and inserts into it.
-func hasSetGuard(fn *ssa.Function, what string) bool {
+func hasSetGuard(fn *ssa.Function, what string, scc ...*ssa.Function) bool {
 	isSet := func(v ssa.Value) bool {
 		if fr, ok := eng.LoadOfField(v); ok && strings.Contains(fr.Field, what) {
 			return true
@@ -707,6 +723,7 @@ func hasSetGuard(fn *ssa.Function, what string) bool {
 		return false
 	}
 	test, ins := false, false
+	var inserts []ssa.Instruction
 	eng.Instrs(fn, false, func(in ssa.Instruction) {
 		switch x := in.(type) {
 		case *ssa.Lookup:
@@ -716,10 +733,128 @@ func hasSetGuard(fn *ssa.Function, what string) bool {
 		case *ssa.MapUpdate:
 			if isSet(x.Map) {
 				ins = true
+				inserts = append(inserts, x)
 			}
 		}
 	})
-	return test && ins
+	if !(test && ins) {
+		return false
+	}
+	// the guard covers the recursion: every call that re-enters the cycle from this function comes after an insertion
+	// (on every path), and no plain delete of the set lies between that insertion and the call
+	before := func(a, b ssa.Instruction) bool {
+		if a.Block() == b.Block() {
+			for _, in := range a.Block().Instrs {
+				if in == a {
+					return true
+				}
+				if in == b {
+					return false
+				}
+			}
+		}
+		return a.Block().Dominates(b.Block())
+	}
+	member := map[*ssa.Function]bool{}
+	for _, f := range scc {
+		member[f] = true
+	}
+	// a key that exists only for one dynamic type of the argument (ref, ok := obj.(IndirectRef); onPath[ref.Number]):
+	// the other types carry no reference and the insertion is rightly conditional
+	typed := len(inserts) > 0
+	for _, m := range inserts {
+		fromAssert := false
+		for w := range eng.Slice(m.(*ssa.MapUpdate).Key, nil) {
+			if ta, ok := w.(*ssa.TypeAssert); ok && ta.CommaOk {
+				fromAssert = true
+			}
+		}
+		if !fromAssert {
+			typed = false
+		}
+	}
+	if typed {
+		return true
+	}
+	covered := true
+	eng.Instrs(fn, false, func(in ssa.Instruction) {
+		ci, ok := in.(ssa.CallInstruction)
+		if !ok {
+			return
+		}
+		if _, isDefer := in.(*ssa.Defer); isDefer {
+			return
+		}
+		cal := eng.StaticCallee(ci)
+		if cal == nil || !member[cal] {
+			return
+		}
+		okCall := false
+		for _, m := range inserts {
+			if !before(m, in) {
+				continue
+			}
+			undone := false
+			eng.Instrs(fn, false, func(d ssa.Instruction) {
+				dc, ok := d.(*ssa.Call)
+				if !ok {
+					return
+				}
+				if bi, ok := dc.Call.Value.(*ssa.Builtin); ok && bi.Name() == "delete" && isSet(dc.Call.Args[0]) && before(m, d) && before(d, in) {
+					undone = true
+				}
+			})
+			if !undone {
+				okCall = true
+			}
+		}
+		if !okCall {
+			covered = false
+		}
+	})
+	return covered
+}
+
+// cutsAllCycles: without f the members of the component no longer form a cycle.
+func cutsAllCycles(p *eng.Prog, scc []*ssa.Function, f *ssa.Function) bool {
+	cg := p.CallGraph()
+	in := map[*ssa.Function]bool{}
+	for _, m := range scc {
+		if m != f {
+			in[m] = true
+		}
+	}
+	state := map[*ssa.Function]int{}
+	var visit func(m *ssa.Function) bool
+	visit = func(m *ssa.Function) bool {
+		state[m] = 1
+		var outs []*ssa.Function
+		if n := cg.Nodes[m]; n != nil {
+			for _, e := range n.Out {
+				outs = append(outs, e.Callee.Func)
+			}
+		}
+		outs = append(outs, m.AnonFuncs...)
+		for _, o := range outs {
+			if !in[o] {
+				continue
+			}
+			if state[o] == 1 {
+				return false
+			}
+			if state[o] == 0 && !visit(o) {
+				return false
+			}
+		}
+		state[m] = 2
+		return true
+	}
+	for m := range in {
+		if state[m] == 0 && !visit(m) {
+			return false
+		}
+	}
+	return true
 }
 
 func ruleRecGuard(c *eng.Ctx) {
@@ -787,7 +922,16 @@ func ruleRecGuard(c *eng.Ctx) {
 			if g.kind == "depth" {
 				okG = hasDepthGuard(gf, g.what, scc...)
 			} else {
-				okG = hasSetGuard(gf, g.what)
+				okG = hasSetGuard(gf, g.what, scc...)
+			}
+			if !okG && g.kind == "set" {
+				// the guard moved into a stage of the same cycle: accepted when that member tests and fills the same
+				// set around its own calls into the cycle and every cycle passes through it
+				for _, f := range scc {
+					if f != gf && hasSetGuard(f, g.what, scc...) && cutsAllCycles(c.P, scc, f) {
+						okG = true
+					}
+				}
 			}
 			c.Check(okG, R, key, gf.Pos(), g.kind+" guard on "+g.what+" in "+g.fn, "the recursion over file-controlled references/nesting is no longer guarded ("+g.kind+" guard on "+g.what+" in "+g.fn+" not found): a self-referencing or deeply nested input overflows the stack, which aborts the process")
 			continue
